@@ -221,7 +221,10 @@ def smt_check(pc, goal, timeout_ms=None, want_model=None, use_cvc5=True, defs=No
     try:
         fq, fg = focused_query(pc, goal, defs)
         fflat = deselect(fq + [z3.Not(fg)])
-        for hops in (relevance_layers(fflat[:-1] if len(fflat) == len(fq) + 1 else fflat, fg) + [None]):
+        # small focused queries go to the solver whole: a sub-layer that lacks a length bound is satisfiable only by
+        # very long strings, which z3's sequence solver constructs slowly and without honouring its timeout
+        layers = [] if len(fq) <= 15 else relevance_layers(fflat[:-1] if len(fflat) == len(fq) + 1 else fflat, fg)
+        for hops in ([None] + layers):
             s = z3.Solver()
             s.set('timeout', min(timeout_ms or Z3_TIMEOUT_MS, 3000))
             for c in (fflat if hops is None else hops + [fflat[len(fq)]]):
